@@ -241,49 +241,37 @@ class ANMLGrammar:
         )
         type_decl.set_parse_action(self.types.append)
         identifier_list = identifier - ZeroOrMore(Suppress(TK_COMMA) - identifier)
+        # a bound is a constant arithmetic expression: `-2`, `7/2`, `3.5` (the ANMLWriter
+        # prints negative and fractional bounds in these forms)
+        numeric_bound = Group(arithmetic_expression)
+        numeric_bounds = Group(
+            (
+                (
+                    Suppress(TK_L_BRACKET)
+                    - numeric_bound.set_results_name("left_bound")
+                )
+                | (
+                    Suppress(TK_L_PARENTHESIS)
+                    - Suppress("-")
+                    - keyword(TK_INFINITY).set_results_name("left_bound")
+                )
+            )
+            - Suppress(TK_COMMA)
+            - (
+                (
+                    keyword(TK_INFINITY).set_results_name("right_bound")
+                    - Suppress(TK_R_PARENTHESIS)
+                )
+                | (
+                    numeric_bound.set_results_name("right_bound")
+                    - Suppress(TK_R_BRACKET)
+                )
+            )
+        )
         primitive_type = (
             keyword(TK_BOOLEAN).set_results_name("name")
-            | (
-                keyword(TK_INTEGER).set_results_name("name")
-                - Optional(
-                    Group(
-                        (
-                            (
-                                Suppress(TK_L_BRACKET)
-                                - integer.set_results_name("left_bound")
-                            )
-                            | (
-                                Suppress(TK_L_PARENTHESIS)
-                                - Suppress("-")
-                                - keyword(TK_INFINITY).set_results_name("left_bound")
-                            )
-                        )
-                        - Suppress(TK_COMMA)
-                        - (
-                            (
-                                integer.set_results_name("right_bound")
-                                - Suppress(TK_R_BRACKET)
-                            )
-                            | (
-                                keyword(TK_INFINITY).set_results_name("right_bound")
-                                - Suppress(TK_R_PARENTHESIS)
-                            )
-                        )
-                    )
-                )
-            )
-            | (
-                TK_FLOAT.set_results_name("name")
-                - Optional(
-                    Group(
-                        Suppress(TK_L_BRACKET)
-                        - real.set_results_name("left_bound")
-                        - Suppress(TK_COMMA)
-                        - real.set_results_name("right_bound")
-                        - Suppress(TK_R_BRACKET)
-                    )
-                )
-            )
+            | (keyword(TK_INTEGER).set_results_name("name") - Optional(numeric_bounds))
+            | (TK_FLOAT.set_results_name("name") - Optional(numeric_bounds))
         )
         type_ref = primitive_type | identifier
         instance_decl = (
